@@ -13,7 +13,7 @@ use i_tree::key::tree::KeyExpTree;
 use i_tree::verif::VerifSnapshot;
 use i_tree::EMPTY_REF;
 
-pub const KEY_OPS: &[&str] = &["ins", "fl", "fle", "fleby", "get", "adv", "clear", "isempty", "export", "bulk"];
+pub const KEY_OPS: &[&str] = &["ins", "fl", "fle", "fleby", "get", "adv", "clear", "isempty", "export", "bulk", "drain"];
 pub const K_INS: u8 = 0;
 pub const K_FL: u8 = 1;
 pub const K_FLE: u8 = 2;
@@ -24,6 +24,9 @@ pub const K_CLEAR: u8 = 6;
 pub const K_ISEMPTY: u8 = 7;
 pub const K_EXPORT: u8 = 8;
 pub const K_BULK: u8 = 9;
+/// `drain n`: n predecessor queries at evenly spaced probes (each with the usual oracle), so that
+/// lazy expiry physically removes most of what has expired
+pub const K_DRAIN: u8 = 10;
 
 pub const DEFAULT_VAL: u64 = u64::MAX;
 
@@ -507,21 +510,21 @@ impl<'a, C: KeyColl> KeyRun<'a, C> {
         for pk in -1..=umax {
             let key = XKey::new(pk, t, u32::MAX);
             let coll = self.coll.as_mut().unwrap();
-            let (r, _, _) = lib_call(None, u64::MAX, false, || coll.first_less(t, DEFAULT_VAL, key));
+            let (r, _, _) = lib_call(None, crate::run::INTERNAL_BUDGET, false, || coll.first_less(t, DEFAULT_VAL, key));
             let got = r.map_err(|e| format!("first_less({}) failed during sweep: {:?}", pk, e))?;
             let exp = model.pred(t, |k| k < pk).map(|e| e.serial).unwrap_or(DEFAULT_VAL);
             if got != exp {
                 return Err(format!("first_less(t={}, {}) = {} expected {}", t, pk, got, exp));
             }
             let coll = self.coll.as_mut().unwrap();
-            let (r, _, _) = lib_call(None, u64::MAX, false, || coll.first_less_or_equal(t, DEFAULT_VAL, key));
+            let (r, _, _) = lib_call(None, crate::run::INTERNAL_BUDGET, false, || coll.first_less_or_equal(t, DEFAULT_VAL, key));
             let got = r.map_err(|e| format!("first_less_or_equal({}) failed during sweep: {:?}", pk, e))?;
             let exp = model.pred(t, |k| k <= pk).map(|e| e.serial).unwrap_or(DEFAULT_VAL);
             if got != exp {
                 return Err(format!("first_less_or_equal(t={}, {}) = {} expected {}", t, pk, got, exp));
             }
             let coll = self.coll.as_mut().unwrap();
-            let (r, _, _) = lib_call(None, u64::MAX, false, || coll.get_value(t, key));
+            let (r, _, _) = lib_call(None, crate::run::INTERNAL_BUDGET, false, || coll.get_value(t, key));
             let got = r.map_err(|e| format!("get_value({}) failed during sweep: {:?}", pk, e))?;
             let exp = model.get(t, pk).map(|e| e.serial);
             if got != exp {
@@ -614,6 +617,24 @@ impl<'a, C: KeyColl> KeyRun<'a, C> {
             K_ISEMPTY => self.op_isempty(i),
             K_EXPORT => self.op_export(i, op),
             K_BULK => self.op_bulk(i, op),
+            K_DRAIN => {
+                let n = op.args[0].rem_euclid(1 << 20).max(1);
+                let span = self.u as i64 + 2;
+                for j in 0..n {
+                    let probe = (j * span) / n;
+                    let q = RawOp::new(if j % 2 == 0 { K_FLE } else { K_FL }, &[probe]);
+                    match self.op_query(i, &q) {
+                        Step::Continue => {
+                            // one callbacks entry per raw op
+                            self.out.callbacks.pop();
+                        }
+                        Step::Stop => return Step::Stop,
+                    }
+                }
+                self.out.callbacks.push(0);
+                self.out.class("drain");
+                Step::Continue
+            }
             _ => {
                 self.out.degraded += 1;
                 self.out.callbacks.push(0);
@@ -706,7 +727,7 @@ impl<'a, C: KeyColl> KeyRun<'a, C> {
         self.out.callbacks.push(total_calls);
         if let Some(tw) = self.twin.as_mut() {
             let k2 = XKey::new(k, exp, serial);
-            let (r, _, _) = lib_call(None, u64::MAX, false, || tw.insert(k2, serial as u64, t));
+            let (r, _, _) = lib_call(None, crate::run::INTERNAL_BUDGET, false, || tw.insert(k2, serial as u64, t));
             if r.is_err() {
                 self.out.fail(12, "twin-panicked", i, "a fresh instance driven by the suffix panicked (twin insert failed)".into());
                 return Step::Stop;
@@ -805,7 +826,7 @@ impl<'a, C: KeyColl> KeyRun<'a, C> {
         }
         if let Some(tw) = self.twin.as_mut() {
             let kind = op.kind;
-            let (r, _, _) = lib_call(None, u64::MAX, false, || match kind {
+            let (r, _, _) = lib_call(None, crate::run::INTERNAL_BUDGET, false, || match kind {
                 K_FL => tw.first_less(t, DEFAULT_VAL, key),
                 K_FLE => tw.first_less_or_equal(t, DEFAULT_VAL, key),
                 _ => tw.first_less_or_equal_by(t, DEFAULT_VAL, |sk| xkey_by(fam, sk, p)),
@@ -920,7 +941,7 @@ impl<'a, C: KeyColl> KeyRun<'a, C> {
             }
         }
         if let Some(tw) = self.twin.as_mut() {
-            let (r, _, _) = lib_call(None, u64::MAX, false, || tw.get_value(t, key));
+            let (r, _, _) = lib_call(None, crate::run::INTERNAL_BUDGET, false, || tw.get_value(t, key));
             match r {
                 Ok(v2) => {
                     if self.rc.obs(12) {
@@ -946,7 +967,7 @@ impl<'a, C: KeyColl> KeyRun<'a, C> {
     fn op_isempty(&mut self, i: usize) -> Step {
         let t = self.clock;
         let coll = self.coll.as_ref().unwrap();
-        let (r, _, _) = lib_call(None, u64::MAX, false, || coll.is_empty());
+        let (r, _, _) = lib_call(None, crate::run::INTERNAL_BUDGET, false, || coll.is_empty());
         self.out.callbacks.push(0);
         let got = match r {
             Ok(v) => v,
@@ -996,7 +1017,7 @@ impl<'a, C: KeyColl> KeyRun<'a, C> {
             }
         }
         let coll = self.coll.as_mut().unwrap();
-        let (r, _, _) = lib_call(None, u64::MAX, false, || coll.clear());
+        let (r, _, _) = lib_call(None, crate::run::INTERNAL_BUDGET, false, || coll.clear());
         self.out.callbacks.push(0);
         if let Err(e) = r {
             return self.on_call_err(i, e, &[12], "clear");
@@ -1098,7 +1119,7 @@ impl<'a, C: KeyColl> KeyRun<'a, C> {
             }
         }
         if let Some(tw) = self.twin.take() {
-            let (r, _, _) = lib_call(None, u64::MAX, false, move || tw.into_ordered_vec(t));
+            let (r, _, _) = lib_call(None, crate::run::INTERNAL_BUDGET, false, move || tw.into_ordered_vec(t));
             match r {
                 Ok(v2) => {
                     if self.rc.obs(12) {
@@ -1121,14 +1142,14 @@ impl<'a, C: KeyColl> KeyRun<'a, C> {
 
     fn op_bulk(&mut self, i: usize, op: &RawOp) -> Step {
         let t = self.clock;
-        if !self.model.entries.is_empty() {
+        if self.model.live_count(t) > 0 {
             self.out.degraded += 1;
             self.out.callbacks.push(0);
             return Step::Continue;
         }
         let n = op.args[0].rem_euclid(4_000_001) as i64;
         let order = op.args[1].rem_euclid(3);
-        let pattern = op.args[2].rem_euclid(3);
+        let pattern = op.args[2].rem_euclid(4);
         trace!(self, "#{} bulk insert n={} order={} expiry-pattern={} at t={}", i, n, ["ascending", "descending", "permuted"][order as usize], pattern, t);
         // step coprime to n for the permuted order
         let mut step = ((n as f64) * 0.618) as i64 | 1;
@@ -1151,6 +1172,7 @@ impl<'a, C: KeyColl> KeyRun<'a, C> {
                         far
                     }
                 }
+                3 => t.saturating_add(1),
                 _ => {
                     if k % 8 == 0 {
                         far
@@ -1162,7 +1184,7 @@ impl<'a, C: KeyColl> KeyRun<'a, C> {
             let serial = self.next_serial();
             let key = XKey::new(k, exp, serial);
             let coll = self.coll.as_mut().unwrap();
-            let (r, _, _) = lib_call(None, u64::MAX, false, || coll.insert(key, serial as u64, t));
+            let (r, _, _) = lib_call(None, crate::run::INTERNAL_BUDGET, false, || coll.insert(key, serial as u64, t));
             if let Err(e) = r {
                 return self.on_call_err(i, e, &[], "insert (bulk)");
             }
@@ -1193,8 +1215,8 @@ impl<'a, C: KeyColl> KeyRun<'a, C> {
             let t = self.clock;
             let coll = self.coll.take().unwrap();
             let tw = self.twin.take().unwrap();
-            let (a, _, _) = lib_call(None, u64::MAX, false, move || coll.into_ordered_vec(t));
-            let (b, _, _) = lib_call(None, u64::MAX, false, move || tw.into_ordered_vec(t));
+            let (a, _, _) = lib_call(None, crate::run::INTERNAL_BUDGET, false, move || coll.into_ordered_vec(t));
+            let (b, _, _) = lib_call(None, crate::run::INTERNAL_BUDGET, false, move || tw.into_ordered_vec(t));
             if let (Ok(a), Ok(b)) = (a, b) {
                 self.out.observations += 1;
                 if a != b {
